@@ -757,6 +757,86 @@ fn check_word(word: &[u8], alpha: &[X], max_depth: usize, ctx: &mut Ctx) {
     }
 }
 
+/// Second engine (DESIGN 1.4): the next / next_back machine on the container iterators as a stateright
+/// model. A state is (word, source, items taken from the front, items taken from the back, agreed?): unlike
+/// the history tree above, stateright merges all operation sequences that reach the same (front, back)
+/// point, and the observation in a state is made after replaying the *canonical* sequence (all fronts,
+/// then all backs) on a freshly built real iterator - a state reached by a different route than the
+/// explorer's. The reachable set is known in closed form ((n+1)(n+2)/2 points per iterator of n items).
+struct SrDeque {
+    words: Vec<Vec<X>>,
+    srcs: Vec<Vec<Src>>,
+}
+type SrState = (u32, u16, u8, u8, bool);
+impl SrDeque {
+    fn observe(&self, wi: usize, si: usize, f: usize, back: usize) -> bool {
+        let d = Data::new(&self.words[wi]);
+        let src = &self.srcs[wi][si];
+        let pol = polars_for(&d, src);
+        let list: Vec<f64> = d.vec.clone();
+        let n = list.len();
+        let r = catch(|| {
+            let mut it = de_source(&d, &pol, src).unwrap();
+            let mut ok = true;
+            let same = |g: Option<f64>, w: f64| matches!(g, Some(g) if g.to_bits() == w.to_bits() || (g.is_nan() && w.is_nan()));
+            for i in 0..f {
+                ok &= same(it.next(), list[i]);
+            }
+            for j in 0..back {
+                ok &= same(it.next_back(), list[n - 1 - j]);
+            }
+            let rem = n - f - back;
+            let h = it.size_hint();
+            ok && h.1 == Some(rem) && h.0 <= rem
+        });
+        matches!(r, Outcome::Ok(true))
+    }
+}
+impl stateright::Model for SrDeque {
+    type State = SrState;
+    type Action = bool;
+    fn init_states(&self) -> Vec<SrState> {
+        let mut v = vec![];
+        for (wi, ss) in self.srcs.iter().enumerate() {
+            for si in 0..ss.len() {
+                v.push((wi as u32, si as u16, 0, 0, self.observe(wi, si, 0, 0)));
+            }
+        }
+        v
+    }
+    fn actions(&self, _s: &SrState, a: &mut Vec<bool>) {
+        a.extend([true, false]);
+    }
+    fn next_state(&self, s: &SrState, front: bool) -> Option<SrState> {
+        let n = self.words[s.0 as usize].len();
+        let (f, b) = (s.2 as usize, s.3 as usize);
+        if f + b >= n {
+            return None; // exhausted: further calls return None and leave the point unchanged
+        }
+        let (f, b) = if front { (f + 1, b) } else { (f, b + 1) };
+        Some((s.0, s.1, f as u8, b as u8, self.observe(s.0 as usize, s.1 as usize, f, b)))
+    }
+    fn properties(&self) -> Vec<stateright::Property<Self>> {
+        vec![stateright::Property::always("size hint = items still to come, items from both ends", |_, s: &SrState| s.4)]
+    }
+}
+
+/// returns (unique states found by stateright, closed-form count, discoveries)
+fn stateright_crosscheck(alpha: &[X], max_len: usize) -> (usize, usize, usize) {
+    use stateright::{Checker, Model};
+    let words: Vec<Vec<X>> = all_words_upto(alpha.len(), max_len).iter().map(|w| decode(w, alpha)).collect();
+    let srcs: Vec<Vec<Src>> = words
+        .iter()
+        .map(|w| sources_full(w.len()).into_iter().filter(|s| matches!(s, Src::Vec | Src::Deque(_) | Src::Array | Src::View(_) | Src::Polars(_))).collect())
+        .collect();
+    let mut expected = 0usize;
+    for (w, ss) in words.iter().zip(&srcs) {
+        expected += ss.len() * (w.len() + 1) * (w.len() + 2) / 2;
+    }
+    let checker = SrDeque { words, srcs }.checker().threads(1).spawn_bfs().join();
+    (checker.unique_state_count(), expected, checker.discoveries().len())
+}
+
 fn main() {
     let run = Run::from_args("C09");
     let alpha: Vec<X> = vec![None, Some(-1.0), Some(0.0), Some(2.0)];
@@ -791,6 +871,17 @@ fn main() {
         check_generator(&src, &mut g);
     }
     total.merge(g);
+    // cross-check of the double-ended machine with the second engine (words up to length 3 / 4)
+    let (sr_states, sr_expected, sr_disc) = stateright_crosscheck(&alpha, run.pick(3, 4));
+    println!("stateright cross-check (double-ended machine): unique states {sr_states} (closed form {sr_expected}), discoveries {sr_disc}");
+    let de_violations = total.buckets.keys().filter(|k| k.contains("(double-ended)") && !k.contains("Chunked(") && !k.contains("StringChunked")).count();
+    if sr_states != sr_expected {
+        total.error(format!("stateright explored {sr_states} states of the double-ended machine, closed form says {sr_expected}"));
+    }
+    if (de_violations == 0) != (sr_disc == 0) {
+        total.error(format!("engines disagree on the double-ended machine: explorer {de_violations} violation buckets, stateright {sr_disc} discoveries"));
+    }
+    total.states += sr_states as u64;
     let meta = Meta {
         rule: "operation-sequence machine over iterators. A recipe = source (container titer on every back end / ring offset / stride / chunking, vdiff, vpct_change, vpartition, varg_partition, rolling_custom_iter, winsorize, range, linspace with full parameter bands) followed by 0..d adaptors (shift, vshift, ffill, bfill, fill, ffill_mask, fill_mask, vclip, abs, vabs; full bands at depth 1 and for the outer adaptor at depth 2, all 8^d pipelines of a reduced alphabet at depth 3..d). In every state (after k next(), and for double-ended sources after every next/next_back sequence up to len+2) size_hint().1 must equal the number of items still to come and the lower bound must not exceed it; adaptors preserve the input length; only then the raw trusted collectors are run and must return exactly the safely iterated list. Non-trivial = distinct input words.".into(),
         bounds: json!({"alphabet": json_word(&alpha), "L": max_len, "max_depth": max_depth, "lags": "-len-3..=len+3, i32::MIN, i32::MAX", "kth": "0..=len+2", "window": "1..=len+2",
